@@ -422,7 +422,7 @@ func TestC18(t *testing.T) {
 		Bubble:         true,
 		Warmup:         storesim.Warmup,
 		Describe:       describe,
-		Tier:           "A",
+		Tier:           "B",
 		RequiredProbes: []string{"restore-verified", "write-during-backup", "cut-detected", "cut-at-block-boundary", "export-verified", "rpc-copy-verified", "rpc-copy-refused", "rpc-copy-verified-under-fault", "rpc-copy-retried-after-failure", "rpc-copy-again-verified"},
 		Real:           []string{"tsdb.Store.BackupShard / RestoreShard / ExportShard / ImportShard", "tsm1.Engine.Backup, CreateSnapshot, overlay, readFileFromBackup", "pkg/tar stream", "the storage engine underneath (as C02)", "RPC mode (1 run in 5): coordinator.Client.CopyShard, coordinator.Service processCopyShardRequest / backupRemoteShard / processBackupShardRequest on two real data nodes behind tcp.Mux"},
 		Stub:           []string{"the network between source and destination: in the store mode the backup stream is carried in a buffer and cut at seeded offsets (what a reset connection delivers); in RPC mode it is the simulated network (fragmenting, slow, reset or closed cleanly after a drawn number of bytes); the meta handler that adds the owner after a successful copy is not run"},
